@@ -1,17 +1,8 @@
 INIT Init
 NEXT Next
 CONSTANTS
-  Signs <- Both
-  Sigs <- SigEdge
-  Exps <- ExpStep
-  Precs = {1, 2, 3, 4}
-  UncSigs <- SigEdge
-  UncOffs = {}
-  UncPrecs = {}
-  Units = {}
-  Convs = {}
-  UncSrcs = {"arg"}
-  RomanMax = 0
+  SliceTable <- AllSlices
+  SliceNames = {"decades_q"}
 INVARIANT TypeOK
 INVARIANT RoundCarries
 INVARIANT ModelNumberDenotes
